@@ -1641,8 +1641,13 @@ int ov_pcm_seek_page(OggVorbis_File *vf,ogg_int64_t pos){
         ogg_stream_reset_serialno(&vf->os,vf->current_serialno);
         ogg_stream_pagein(&vf->os,&og);
 
-      }else
+      }else{
+        /* no page of this link lies before the target and we are
+           not looking at its first page either; result still holds
+           whatever the last (successful) call returned */
+        result=OV_EBADLINK;
         goto seek_error;
+      }
 
     }else{
 
